@@ -484,6 +484,13 @@ def Pool.handable (p : Pool K) (shard : Nat) : List Nat :=
     let shard := shardAsU16 shard
     if shard < n && !(p.bucket shard).isEmpty then p.bucket shard else p.conns
 
+/-- `NodeConnectionPool::get_working_connections()` (connection_pool.rs:444-455): the third hand-out path - ALL the
+published connections, `conns.clone()` of an unsharded pool / `connections.iter().flatten()` of a sharded one, i.e. the
+same bucket walk `use_keyspace` snapshots. `Session::prepare`'s fallback (`iter_working_connections_to_shards`), schema
+agreement and `iter_working_connections_per_node` send on these; `iter_working_connections_to_nodes` (the first attempt
+of `Session::prepare`) takes `random_connection` of every known node. -/
+def Pool.workingConnections (p : Pool K) : List Nat := p.byShard
+
 /-! ## 4. The cluster worker -/
 
 /-- One spawned `handle_use_keyspace_request`. -/
